@@ -321,3 +321,71 @@ Proof.
   eapply B_step; [eapply (SI_dyn _ _ _ _ 1%nat); reflexivity|].
   eapply B_step; [eapply (SI_fixed _ _ _ _ _ 1%nat); reflexivity|]. apply B_here.
 Qed.
+
+(* 12. (composition with property C19, proofs in Abi/SerRoundTripC19.v) Theorems 3 and 4 with property
+       C19's model of ethtypes.BigIntegerFromString in the place of the parameter [bifs]: no hypothesis
+       about the text parser is left.  Theorem 4's denotation [D] becomes [D19 t z]: "whenever t is a
+       spelling of the quantifier's classes (canonical decimal, '-' decimal, 0x-hex, JSON number) for
+       m * 10^e, z is that number" - C19's soundness theorem, which needs no size guard.  So for EVERY
+       external value x (texts, JSON numbers, big.Int, sized ints, floats, anything else) given for a
+       uint<M> / int<M> parameter: the word of an in-range integer that x denotes, or an error; a panic
+       only for a typed-nil *big.Int / an infinite *big.Float. *)
+From FFS Require Abi.SerRoundTripC19.
+Theorem C02_integers_exact_or_rejected_c19 :
+  forall e s m k x,
+    (e = EInt \/ e = EUInt) -> tc_wf (int_tc e s m k) = true ->
+    match EncodeABIDataValues EthTypes.Model.BigIntegerFromString [int_tc e s m k] (XList [x]) with
+    | Ok b => exists z, int_denotes SerRoundTripC19.D19 x z /\ in_range e m z /\ b = word z
+    | Err _ => True
+    | Panic => x = XBigInt None \/ exists sg, x = XBigFloat (BInf sg)
+    end.
+Proof. exact SerRoundTripC19.integers_exact_or_rejected_c19. Qed.
+Print Assumptions C02_integers_exact_or_rejected_c19.
+
+Theorem C02_never_panics_c19 :
+  forall (params : list tcomp) (input : ext),
+    let root := root_of params in
+    tc_wf root = true -> tc_no_fixed_point root = true -> ext_clean input = true ->
+    match walkInput EthTypes.Model.BigIntegerFromString root input with
+    | Panic => False
+    | Err _ => True
+    | Ok x => (Z.of_nat (weight (val_of x)) < 2 ^ 248)%Z ->
+              EncodeABIDataValues EthTypes.Model.BigIntegerFromString params input <> Panic
+    end.
+Proof. exact SerRoundTripC19.never_panics_c19. Qed.
+Print Assumptions C02_never_panics_c19.
+
+(* 13. Theorem 5 for the integer texts pkg/abi itself writes (the output serializer's base-10 text
+       [Z_dec z] as a JSON string or JSON number, and its signed 0x-hex text [Z_0xhex z] = ["-"] "0x"
+       hex(|z|)), with C19's model: for EVERY integer z - no bound on its size, C19's guards do not
+       apply because these texts are read by the big.Int.SetString branch - the one-parameter list is
+       encoded as the word of z when z is in the range of the type and refused when it is not.  Rests
+       on the digit-list form of Coq's N.to_uint / N.to_hex_uint (Abi/SerRoundTripDigits.v). *)
+Theorem C02_rendered_integers_c19 :
+  forall e s m k x z,
+    (e = EInt \/ e = EUInt) -> tc_wf (int_tc e s m k) = true -> SerRoundTripC19.rendered_input x z ->
+    (in_range e m z ->
+       EncodeABIDataValues EthTypes.Model.BigIntegerFromString [int_tc e s m k] (XList [x]) = Ok (word z)) /\
+    (~ in_range e m z ->
+       exists err, EncodeABIDataValues EthTypes.Model.BigIntegerFromString [int_tc e s m k] (XList [x]) = Err err).
+Proof. exact SerRoundTripC19.rendered_integers_c19. Qed.
+Print Assumptions C02_rendered_integers_c19.
+
+(* non-vacuity of 12 / 13: int256 at its lower bound and one below, as the serializer's texts *)
+Example C02_c19_nonvacuous :
+  let i256 := int_tc EInt (ascii_bytes "256") 256 [] in
+  let u8 := int_tc EUInt (ascii_bytes "8") 8 [] in
+  let run tc x := EncodeABIDataValues EthTypes.Model.BigIntegerFromString [tc] (XList [x]) in
+  tc_wf i256 = true /\ tc_wf u8 = true /\
+  SerRoundTripC19.rendered_input (XStr (SerRoundTripC19.Z_0xhex (- 2 ^ 255))) (- 2 ^ 255) /\
+  SerRoundTripC19.Z_0xhex (-128) = ascii_bytes "-0x80" /\ Abi.Render.Z_dec (-128) = ascii_bytes "-128" /\
+  in_range EInt 256 (- 2 ^ 255) /\ ~ in_range EInt 256 (- 2 ^ 255 - 1) /\
+  run i256 (XStr (SerRoundTripC19.Z_0xhex (- 2 ^ 255))) = Ok (word (- 2 ^ 255)) /\
+  is_err (run i256 (XJNum (Abi.Render.Z_dec (- 2 ^ 255 - 1)))) = true /\
+  run u8 (XJNum (ascii_bytes "2.55e2")) = Ok (word 255) /\ is_err (run u8 (XBigInt (Some 256%Z))) = true.
+Proof.
+  cbv zeta. split; [vm_compute; reflexivity|]. split; [vm_compute; reflexivity|].
+  split; [right; right; reflexivity|]. split; [vm_compute; reflexivity|]. split; [vm_compute; reflexivity|].
+  split; [unfold in_range, two; simpl; lia|]. split; [unfold in_range, two; simpl; lia|].
+  repeat split; vm_compute; reflexivity.
+Qed.
